@@ -23,6 +23,7 @@ type SParams struct {
 	PMalformed     float64 // an event outside its snapshot
 	PSaveFail      float64
 	POutOfRangeReb float64 // a rebalance moves the range so that old contexts become foreign
+	PRoll          float64 // a stream request is first answered with a rollback (0 = the default: 1 in 8 per vBucket, 1 in 5 per reopen)
 	BigSeq         bool
 	Cfg            *SCfg
 	Initial        map[uint16]SDoc
@@ -143,7 +144,7 @@ func GenRun(rng *rand.Rand, p SParams) *SHistory {
 			}
 			sv.High[uint16(v)] = hi
 			sv.UUID[uint16(v)] = g.uuid
-			if allowRoll && rng.Intn(8) == 0 {
+			if allowRoll && ((p.PRoll == 0 && rng.Intn(8) == 0) || (p.PRoll > 0 && rng.Float64() < p.PRoll)) {
 				sv.Roll = append(sv.Roll, uint16(v))
 			}
 		}
@@ -281,8 +282,13 @@ func GenRun(rng *rand.Rand, p SParams) *SHistory {
 					if g.inSnap {
 						seq = g.snapEnd + 1 + uint64(rng.Intn(3))
 					}
-					ev = SEv{Kind: "mut", Item: &SItem{Seq: seq, Cas: casBase + uint64(rng.Intn(30))*1000000000, Key: []byte("late"), Rest: restID}}
-					restID++
+					if rng.Intn(2) == 0 {
+						// ... a system event of any of the six kinds
+						ev = SEv{Kind: "sys", Sys: rng.Intn(6), Seq: seq, Cid: 8}
+					} else {
+						ev = SEv{Kind: "mut", Item: &SItem{Seq: seq, Cas: casBase + uint64(rng.Intn(30))*1000000000, Key: []byte("late"), Rest: restID}}
+						restID++
+					}
 				case (!g.inSnap || g.next > g.snapEnd) && g.sent[g.next].Kind == "seqadv":
 					ev = g.sent[g.next] // sent again after a re-request
 					g.next = ev.Seq + 1
@@ -376,7 +382,7 @@ func GenRun(rng *rand.Rand, p SParams) *SHistory {
 						g.uuid = uint64(rng.Int63n(1<<40)) + 1
 						op.UUID = g.uuid
 					}
-					op.Roll = rng.Intn(5) == 0
+					op.Roll = (p.PRoll == 0 && rng.Intn(5) == 0) || (p.PRoll > 0 && rng.Float64() < p.PRoll)
 				}
 				outs := exec(op)
 				sv := &SServer{}
